@@ -76,7 +76,8 @@ def gen(seed, tier):
         if r.random() < 0.3:
             rows = [[int(a), int(b), 0] for a, b in zip(orc[d]["time"], orc[d]["endtime"])]
             stored[d] = {"frontend": r.choice([0, 1]), "bounds": G.gen_bounds(r, rows, s, e, max_chunks=4)}
-    mod = r.choice(["none", "none", "none", "selection", "keep_columns", "time_range", "fuzzy", "allow_incomplete"])
+    mod = r.choice(["none", "none", "none", "selection", "keep_columns", "drop_columns", "time_range", "fuzzy",
+                    "allow_incomplete"])
     explicit = [d for d in need if policy(nb, d) == "EXPLICIT"]
     save = sorted(r.sample(explicit, r.randint(0, len(explicit)))) if explicit else []
     if r.random() < 0.05:
@@ -126,7 +127,7 @@ def plan(w):
     fes = [w["fe0"], {"readonly": False, "take_only": [], "exclude": []}]
     readable = {d for d, st in w["stored2"].items() if takes(fes[st["frontend"]], d)}
     forbid = w["cfg"].get("forbid_creation_of", ())
-    partial = w["mod"] in ("selection", "keep_columns", "time_range", "fuzzy", "allow_incomplete")
+    partial = w["mod"] in ("selection", "keep_columns", "drop_columns", "time_range", "fuzzy", "allow_incomplete")
     run, load, seen = [], set(), set()
     err = None
     errs = set()
@@ -216,6 +217,8 @@ def execute(w, seed, strategy="random", forced=None, strict=False):
             kw["selection"] = f"v_{target} > 20"
         elif w["mod"] == "keep_columns":
             kw["keep_columns"] = ("time", f"v_{target}")
+        elif w["mod"] == "drop_columns":
+            kw["drop_columns"] = (f"v_{target}",)
         elif w["mod"] == "time_range":
             kw["time_range"] = (s, e)
         del pr.log[:]
@@ -286,6 +289,10 @@ def execute(w, seed, strategy="random", forced=None, strict=False):
                         ok = (got.dtype.names == ("time", f"v_{target}") and len(got) == len(want)
                               and np.array_equal(got["time"], want["time"])
                               and np.array_equal(got[f"v_{target}"], want[f"v_{target}"]))
+                    elif w["mod"] == "drop_columns":
+                        left = tuple(n for n in want.dtype.names if n != f"v_{target}")
+                        ok = (got.dtype.names == left and len(got) == len(want)
+                              and all(np.array_equal(got[n], want[n]) for n in left))
                     else:
                         ok = P.rows_equal(got, want)
                     if not ok:
